@@ -18,7 +18,7 @@ RULE = ("hyp layout builder: residues (1..300 quick / 600 thorough) cut into lin
         "file bytes with a three-way reference classifier {well-formed => exact residues, must-reject, unspecified => no assertion}. Oracle: "
         "parseSeqFile(path) == concatenated residues; corrupted => exception; SequenceParameters(sequenceFile=path) and SequencePermutants "
         "hold exactly those residues and answer a 12-analysis panel like SequenceParameters(residues). Non-trivial: >=2 sequence lines and at "
-        "least one of {header, numbering, spacing, '*'}, or any corruption; distinct by file content.")
+        "least one of {header, numbering, spacing, '*'}, or any corruption; distinct by file content. ASCII control characters (NUL, BEL, VT, FF, ESC, FS-US, DEL) strictly inside a sequence line count as 'any other character', inside the header they are ignored, at the edge of a line they are unspecified; first and second header lines may be indented.")
 ASSUMPTIONS = ["unspecified and therefore not asserted: undecodable bytes, non-ASCII decimal digits and non-ASCII whitespace, a first header after "
                "sequence lines, tabs or other control characters at the edge of a line, files without any residue; other non-ASCII characters "
                "(letters, symbols, superscript or circled 'digits') in a sequence line are foreign characters and must be rejected",
